@@ -231,6 +231,62 @@ def dsl_case(drv, rng, out, stats):
         check_object(el, v, el(v), {"element": dump, "value": v}, out, stats, agrees)
 
 
+def build_chain(spec):
+    """spec: per layer a list of [attribute, source or None, element class name, encoded default or None]"""
+    from harness import dsl
+    from statham.schema.elements import Integer, Number, String
+    from statham.schema.elements.meta import ObjectClassDict, ObjectMeta
+    from statham.schema.property import Property
+    classes, base = [], Object
+    for li, layer in enumerate(spec):
+        cd = ObjectClassDict()
+        for name, src, kind, d in layer:
+            elem = {"Integer": Integer, "String": String, "Number": Number}[kind](**({"default": dsl.dec_val(d)} if d is not None else {}))
+            cd[name] = Property(elem, source=src)
+        cls = ObjectMeta(f"Layer{li}", (base,), cd)
+        classes.append(cls)
+        base = cls
+    return classes
+
+
+def inherit_case(rng, out, stats):
+    """Model classes that inherit from one another (class statements, as a user writes them): each class of the chain fills the
+    defaults of *all* its properties, inherited and own, whichever class of the chain was used first."""
+    pool = [("a", None), ("b", None), ("label", None), ("class_", "class"), ("n", None), ("size", None)]
+    picks = rng.sample(pool, rng.choice([3, 4, 5]))
+    depth = rng.choice([2, 2, 3])
+    cut = sorted(rng.sample(range(1, len(picks)), min(depth - 1, len(picks) - 1)))
+    layers = [picks[i:j] for i, j in zip([0] + cut, cut + [len(picks)])]
+    spec = []
+    for layer in layers:
+        own = []
+        for name, src in layer:
+            has_default = rng.random() < 0.75
+            own.append([name, src, rng.choice(["Integer", "String", "Number"]), core.enc_val(rng.choice([1, "s", 2, 0, "", 2.5])) if has_default else None])
+        spec.append(own)
+    classes = build_chain(spec)
+    order = list(range(len(classes)))
+    rng.shuffle(order)
+    case_base = {"inherit": spec, "first_use_order": order}
+    # use the classes in a random order first (an instance from {} and a validation), then look at every class
+    for i in order:
+        core.real_call(classes[i], {})
+    for ci, cls in enumerate(classes):
+        srcs = [p.source or n for n, p in cls.properties.items()]
+        vals_for = {k: rng.choice([1, "s", 2.5, 0]) for k in srcs}
+        subsets = [{k: vals_for[k] for k in combo} for r in range(len(srcs) + 1) for combo in itertools.combinations(srcs, r)]
+        rng.shuffle(subsets)
+        for v in subsets[:6]:
+            real = core.real_call(cls, v)
+            case = {**case_base, "class": ci, "value": core.enc_arg(v)}
+            out.note_case(case, True)
+            if real["r"] != "ok":
+                omission_oracle(cls, v, case, out, stats)
+                continue
+            stats["inherit-accepted"] = stats.get("inherit-accepted", 0) + 1
+            check_object(cls, v, cls(v), case, out, stats, True)
+
+
 def run(ctx, scale=1.0):
     rng = random.Random(ctx["seed"] + 5)
     out = Outcome()
@@ -265,6 +321,8 @@ def run(ctx, scale=1.0):
         check_case(drv, False, [], out, stats)
         for _ in range(int(n / 2)):
             dsl_case(drv, rng, out, stats)
+        for _ in range(int(n / 4)):
+            inherit_case(rng, out, stats)
     finally:
         drv.close()
     out.stats = stats
@@ -304,8 +362,26 @@ def replay_finding(finding):
     return _fails(finding["witness"]["schema"], finding["witness"]["value"])
 
 
+def _inherit_fails(case):
+    from harness import dsl
+    out, stats = Outcome(), {}
+    classes = build_chain(case["inherit"])
+    for i in case["first_use_order"]:
+        core.real_call(classes[i], {})
+    cls = classes[case["class"]]
+    v = dsl.dec_val(case["value"])
+    real = core.real_call(cls, v)
+    if real["r"] != "ok":
+        omission_oracle(cls, v, case, out, stats)
+    else:
+        check_object(cls, v, cls(v), case, out, stats, True)
+    return bool(out.failures)
+
+
 def replay(payload):
     case = payload.get("failure", {}).get("case")
+    if case and "inherit" in case:
+        return not _inherit_fails(case)
     if not case or ("schema" not in case and "element" not in case):
         return True
     v = case["value"]
